@@ -246,6 +246,33 @@ func roland(part, parts int) {
 			judge(v, x%32 == 1)
 		}
 	}
+	if part == 0 {
+		// a value that carries the fields of the other kind as well (a parsed
+		// request answered by filling in the data, a data-set that still has size
+		// bytes): only the fields of its own kind are on the wire
+		v := base(false)
+		v.SendingData = []byte{1, 2, 3}
+		v.NumReqBytes = [3]byte{0x01, 0x02, 0x03}
+		judge(v, true)
+		w := base(true)
+		w.NumReqBytes = [3]byte{0, 0, 5}
+		w.SendingData = []byte{9, 9}
+		judge(w, true)
+		// every model id 0..127 with addresses that look like command bytes
+		for model := 0; model < 128; model++ {
+			for _, a0 := range []byte{0x00, 0x11, 0x12, 0x41, 0x7F} {
+				for _, req := range []bool{false, true} {
+					x := base(req)
+					x.ModelID = byte(model)
+					x.Address[0] = a0
+					if !req {
+						x.SendingData = []byte{0x12, 0x11, 0x00}
+					}
+					judge(x, model < 2 || model == 0x42)
+				}
+			}
+		}
+	}
 }
 
 func mmcChecks(part, parts int) {
